@@ -43,8 +43,11 @@ Record msg := mkMsg {
   (* environment (service behaviour), read only when the message is executed *)
   m_out : N;             (* class of handleCall's answer: 0 = result, k > 0 = error class k *)
   m_size : N;            (* len(answer.Result) + len(answer.Error) *)
-  m_sub : option nat     (* Some k: handleSubscribe installs a Notifier and the callback
-                            calls Notify k times before it returns *)
+  m_sub : option (nat * nat)
+                         (* Some (k, j): handleSubscribe installs a Notifier, the callback calls
+                            Notify k times before it returns and a goroutine it started calls
+                            Notify j more times at unspecified later moments (the TE steps;
+                            j is only read by Run/C49.v to build its schedule) *)
 }.
 
 Definition has_valid_id (m : msg) : bool :=           (* hasValidID *)
@@ -137,7 +140,7 @@ Fixpoint upd_nth {A} (i : nat) (f : A -> A) (l : list A) : list A :=
 Definition new_notifier (m : msg) : list notifier :=
   if executes m then
     match m_sub m with
-    | Some k => [mkNotifier m (seq 0 k) k false]
+    | Some (k, _) => [mkNotifier m (seq 0 k) k false]
     | None => []
     end
   else [].
